@@ -98,13 +98,15 @@ def judge(zone: str, year: int, ydata: dict) -> tuple[list, dict]:
             if nb[1:3] != ['after', 'twice']:
                 bad.append({'what': 'clock_backward given: wrong pair returned', 'case': case(tod, 'nb'), 'observed': nb})
     # the public entry points must decide like check_dst_handling
-    nn_of = {tod: outs[0] for tod, outs in probes}
-    for tod, kind, o in ydata.get('api', []):
-        want = nn_of.get(tod)
+    of = {tod: dict(zip(('nn', 'fn', 'nb', 'fb'), outs)) for tod, outs in probes}
+    for entry in ydata.get('api', []):
+        tod, kind, o = entry[:3]
+        variant = entry[3] if len(entry) > 3 else 'nn'
+        want = of.get(tod, {}).get(variant)
         if want is not None and (o[0], o[1], o[2] if o[0] == 'ok' else '') != (want[0], want[1], want[2] if want[0] == 'ok' else ''):
-            bad.append({'what': f'TriggerBuilder {kind}() decides differently from check_dst_handling',
-                        'case': case(tod, 'nn'), 'observed': {'api': o, 'check': want}})
-        if o[0] == 'ok' and hits.get(tod):
+            bad.append({'what': f'TriggerBuilder {kind}() [{variant}] decides differently from check_dst_handling',
+                        'case': case(tod, variant), 'observed': {'api': o, 'check': want}})
+        if variant == 'nn' and o[0] == 'ok' and hits.get(tod):
             d0 = hits[tod][0]
             bad.append({'what': f'{kind}() accepted without policy although the time is {d0[1]} on {d0[0]}',
                         'case': case(tod, 'nn'), 'observed': {'outcome': o, 'days': hits[tod][:4]}})
